@@ -1,7 +1,7 @@
 """C17 — stream object lifecycle behaves like the documented state machine."""
 from lib import kv
 PID = "C17"
-LEVEL = "exploration"
+LEVEL = "proof"
 RULE = ("random call programs on a Writer (Write with lengths 0 / block / jobs*block / random, Close repeated, GetWritten) then on a Reader "
         "over the produced stream (Read lengths 0/1/block/random, Close repeated, GetRead), jobs 1..4, all codecs: Close idempotent, "
         "use-after-close is an error without side effects (counter and sink unchanged), full length on success, monotone counters, "
